@@ -489,6 +489,7 @@ def _cmp_mat(got, exp):
 
 def replay_lgbn_case(pat, case, seed, fails, hs):
     from pgmpy.factors.continuous import LinearGaussianCPD
+    _UNIT[0] = 1.0
     rng = random.Random(seed)
     out, edges = case["out"], case["edges"]
     calls = 0
@@ -600,18 +601,24 @@ def replay_lgbn_case(pat, case, seed, fails, hs):
 
 
 # ---------------------------------------------------------------- Gaussian / canonical objects
+_UNIT = [1.0]      # unit of measurement of the current case: every variable is x' = s * x (mean * s, covariance * s^2, K / s^2, h / s);
+#                     answers are converted back before they are compared with the specification's (unit 1) values
+
+
 def _mk_gauss(j, vn, rng):
     from pgmpy.factors.distributions import GaussianDistribution
     from ..concretise import shuffled
     o = shuffled(sorted(j["S"]), rng)
-    return GaussianDistribution([vn[v] for v in o], [_f(j["mu"][v]) for v in o], [[_f(j["cov"][a][b]) for b in o] for a in o])
+    u = _UNIT[0]
+    return GaussianDistribution([vn[v] for v in o], [_f(j["mu"][v]) * u for v in o], [[_f(j["cov"][a][b]) * u * u for b in o] for a in o])
 
 
 def _mk_canon(j, vn, rng):
     from pgmpy.factors.continuous import CanonicalDistribution
     from ..concretise import shuffled
     o = shuffled(sorted(j["S"]), rng)
-    return CanonicalDistribution([vn[v] for v in o], [[_f(j["K"][a][b]) for b in o] for a in o], [[_f(j["h"][v])] for v in o], sym_eval(j["g"]))
+    u = _UNIT[0]
+    return CanonicalDistribution([vn[v] for v in o], [[_f(j["K"][a][b]) / (u * u) for b in o] for a in o], [[_f(j["h"][v]) / u] for v in o], sym_eval(j["g"]))
 
 
 def _chk_gauss(obj, exp, inv):
@@ -623,7 +630,8 @@ def _chk_gauss(obj, exp, inv):
     toks = [inv.get(x) for x in obj.variables]
     if sorted(map(str, toks)) != sorted(exp["S"]) or len(toks) != len(exp["S"]):
         return "scope"
-    mean, cov = np.asarray(obj.mean, dtype=float), np.asarray(obj.covariance, dtype=float)
+    u = _UNIT[0]
+    mean, cov = np.asarray(obj.mean, dtype=float) / u, np.asarray(obj.covariance, dtype=float) / (u * u)
     k = len(toks)
     if mean.shape != (k, 1) or cov.shape != (k, k):
         return "shape"
@@ -632,7 +640,7 @@ def _chk_gauss(obj, exp, inv):
     if not all(_close(cov[i, j], exp["cov"][v][u]) for i, v in enumerate(toks) for j, u in enumerate(toks)):
         return "cov"
     if "prec" in exp:          # the (cached) information matrix must describe the same density
-        K = np.asarray(obj.precision_matrix, dtype=float)
+        K = np.asarray(obj.precision_matrix, dtype=float) * (u * u)
         if K.shape != (k, k) or not all(_close(K[i, j], exp["prec"][v][u]) for i, v in enumerate(toks) for j, u in enumerate(toks)):
             return "precision_matrix"
     return None
@@ -646,7 +654,8 @@ def _chk_canon(obj, exp, inv):
     toks = [inv.get(x) for x in obj.variables]
     if sorted(map(str, toks)) != sorted(exp["S"]) or len(toks) != len(exp["S"]):
         return "scope"
-    K, h = np.asarray(obj.K, dtype=float), np.asarray(obj.h, dtype=float)
+    u = _UNIT[0]
+    K, h = np.asarray(obj.K, dtype=float) * (u * u), np.asarray(obj.h, dtype=float) * u
     k = len(toks)
     if K.shape != (k, k) or h.shape != (k, 1):
         return "shape"
@@ -654,6 +663,8 @@ def _chk_canon(obj, exp, inv):
         return "K"
     if not all(_close(h[i, 0], exp["h"][v]) for i, v in enumerate(toks)):
         return "h"
+    if u != 1.0:
+        return None          # (the constant g picks up Jacobian terms under a change of unit: compared at unit 1 only)
     e = sym_eval(exp["g"])
     try:
         g = float(obj.g)
@@ -679,6 +690,10 @@ def replay_gd_case(case, seed, fails, hs):
             "to_canonical": "to_canonical_factor"}.get(op, op)
     ip = bool(o.get("inplace", False))
     feats = {"inplace": ip} if "inplace" in o else {}
+    # the same density in another unit of measurement (standard deviations around 1e5 or 1e-4): the specification's answer converted
+    _UNIT[0] = 1.0 if op == "pdf" else rng.choice([1.0, 1.0, 1.0, 1.0, 1e5, 1e-4])
+    if _UNIT[0] != 1.0:
+        feats["unit"] = _UNIT[0]
 
     def fail(clause, obs=None, exp=None):
         fails.append({"api": cls + meth, "clause": clause, "features": feats,
@@ -707,7 +722,7 @@ def replay_gd_case(case, seed, fails, hs):
             r = a.marginalize([vn[v] for v in shuffled(o["vars"], rng)], inplace=ip)
         elif meth == "reduce":
             at = _obj(o["at"])
-            r = a.reduce([(vn[v], float(_f(at[v]))) for v in shuffled(sorted(at), rng)], inplace=ip)
+            r = a.reduce([(vn[v], float(_f(at[v])) * _UNIT[0]) for v in shuffled(sorted(at), rng)], inplace=ip)
         elif meth == "product":
             r = a.product(b, inplace=ip)
         elif meth == "to_canonical_factor":
